@@ -8,7 +8,8 @@
 EXTENDS BlockSet, TLC, Json, IOUtils, SequencesExt
 CONSTANTS Grid,          \* instants 0..Grid
           MaxBlocks,     \* layouts of 0..MaxBlocks blocks are model-checked
-          CaseBlocks     \* layouts of 0..CaseBlocks blocks are handed to the harness (leg B)
+          CaseBlocks,    \* layouts of 0..CaseBlocks blocks are handed to the harness (leg B)
+          WithMatchers   \* TRUE: requests also carry block matchers (every subset of the layout's blocks matches)
 
 ResSet == { Resolutions[i] : i \in 1..3 }
 Types == { [res |-> r, min |-> a, max |-> b] : r \in ResSet, a \in 0..Grid, b \in 0..Grid }
@@ -60,7 +61,7 @@ Loop == /\ ~done /\ stack # <<>> /\ Top.ph = "loop"
 Blk == /\ ~done /\ stack # <<>> /\ Top.ph = "blk"
        /\ LET f == Top
               b == lv[f.i][f.k]
-          IN  /\ out' = Append(out, b.id)
+          IN  /\ out' = (IF b.id \in AllowedIds(blocks, q) THEN Append(out, b.id) ELSE out)   \* block matchers
               /\ SetTop([f EXCEPT !.ph = "loop", !.k = f.k + 1, !.start = NewStart(f.start, b)])
        /\ UNCHANGED <<blocks, lv, q, res, done>> /\ Tick
 
@@ -90,7 +91,10 @@ Call == /\ blocks = NotSet
         /\ blocks' \in LayoutsUpTo(MaxBlocks)
         /\ lv' = [i \in 1..3 |-> Level(blocks', i)]
         /\ stack' = << Frame(FirstLevel(q.maxres), q.mint, q.maxt) >>
-        /\ UNCHANGED <<q, out, res, done, steps>>
+        /\ IF WithMatchers
+             THEN \E al \in SUBSET { b.id : b \in blocks' } : q' = [mint |-> q.mint, maxt |-> q.maxt, maxres |-> q.maxres, allowed |-> al]
+             ELSE q' = q
+        /\ UNCHANGED <<out, res, done, steps>>
 
 Next == Call \/ Enter \/ Loop \/ Blk \/ Ret \/ Finish \/ Returned
 
